@@ -8,7 +8,10 @@ GUtts == { [id |-> 1, form |-> "slice", timed |-> FALSE], [id |-> 1, form |-> "l
            [id |-> 2, form |-> "slice", timed |-> TRUE],   [id |-> 2, form |-> "vec", timed |-> FALSE],
            [id |-> 3, form |-> "labels", timed |-> FALSE], [id |-> 3, form |-> "slice", timed |-> TRUE],
            [id |-> 1, form |-> "slice", timed |-> TRUE],   [id |-> 2, form |-> "vec", timed |-> TRUE],
-           [id |-> 3, form |-> "array", timed |-> TRUE],   [id |-> 3, form |-> "vec", timed |-> TRUE] }
+           [id |-> 3, form |-> "array", timed |-> TRUE],   [id |-> 3, form |-> "vec", timed |-> TRUE],
+           \* utterance 4 consists of silence and pause labels only (no frame is eligible for global variance)
+           [id |-> 4, form |-> "slice", timed |-> FALSE],  [id |-> 4, form |-> "labels", timed |-> FALSE],
+           [id |-> 4, form |-> "vec", timed |-> TRUE] }
 VARIABLE hist
 gvars == <<vars, hist>>
 GInit == Init /\ hist = <<>>
